@@ -142,6 +142,9 @@ def gen_channel_data(rng, kind, allow_empty=True):
         d['view'] = rng.random() < 0.15       # non-contiguous view of a larger array
         r_ = rng.random()
         d['arr'] = 'readonly' if r_ < 0.05 else ('reversed' if r_ < 0.1 else None)   # other legal array kinds
+        # the ChannelObject is built around another array first and gets this one assigned to .data afterwards (one
+        # object reused for successive blocks of a stream)
+        d['reassign'] = rng.random() < 0.06
         # same values held in a big-endian (non-native) array; never empty: an empty array of a dtype the
         # writer cannot map has no determinable TDMS type and is written as a channel without data
         d['be'] = n > 0 and rng.random() < 0.04
@@ -365,7 +368,14 @@ def make_objects(nptdms, call):
         elif o['kind'] == 'group':
             out.append(nptdms.GroupObject(o['group'], props))
         else:
-            out.append(nptdms.ChannelObject(o['group'], o['channel'], make_data(nptdms, o['data']), props))
+            data = make_data(nptdms, o['data'])
+            if o['data'].get('reassign') and isinstance(data, np.ndarray):
+                first = np.zeros(3, dtype='<f8' if data.dtype.kind != 'f' else '<i2')
+                obj = nptdms.ChannelObject(o['group'], o['channel'], first, props)
+                obj.data = data
+                out.append(obj)
+            else:
+                out.append(nptdms.ChannelObject(o['group'], o['channel'], data, props))
     return out
 
 
@@ -503,8 +513,8 @@ def must_accept(call):
             d = o['data']
             if d['form'] != 'nd' and len(make_len(d)) == 0:
                 return False
-            if d.get('be') or d.get('tuple'):
-                return False        # non-native byte order input, a tuple instead of a list: accepted or not is observed
+            if d.get('be') or d.get('tuple') or d.get('reassign'):
+                return False        # non-native byte order input, a tuple instead of a list, .data assigned later: accepted or not is observed
         for _name, pv in (o.get('props') or []):
             if pv[0] == 'int' and not (-2**63 <= pv[1] < 2**64):
                 return False
